@@ -455,6 +455,11 @@ func runC05(r *Report) {
 	c05R7(r)
 	c05R8(r)
 	c05R10(r)
+	// what the peer reports to the torrent is what the store took (C09.R2 shared): the torrent indexes its tables by it
+	c09DataReleases(r, "R2")
+	// the one-shot geometry is set only after the last check that can fail (C13.R1 shared): a second attempt after a
+	// rejected dictionary would otherwise panic in Pieces.MetadataComplete
+	c13R1(r, "R4")
 	// "allocates in proportion to the message": the decoder's frame arithmetic and allocation bounds (C04.R2/R3/R5)
 	// are the first line of that clause, before any handler runs
 	if read := r.P.Func("protocol", "Read"); read != nil {
